@@ -36,6 +36,7 @@ class Gen:
         self.conn_handles = []   # handle vars that have held a connection at some time
         self.scripts = {}
         self.stats = {}
+        self.handle_sig = {}     # handle var -> signal it was last connected on (a guess: moves are not tracked)
 
     def count(self, k):
         self.stats[k] = self.stats.get(k, 0) + 1
@@ -73,7 +74,7 @@ class Gen:
                     body.append(("EMIT", t))
                     self.emitting_scripts.add(sid)
                 elif c < 0.80:
-                    body.append(f"eval {r.randrange(3)}")
+                    body.append(f"eval {r.randrange(2 if self.profile == 'deferred' else 3)}")
                 elif c < 0.86:
                     body.append(f"heq {h} {r.randrange(NH)}")
                 elif fault:
@@ -106,7 +107,7 @@ class Gen:
         if r.random() < 0.45:
             return 0
         cands = list(self.scripts.keys())
-        if tier == 1 or (deferred and self.profile != 'fault'):
+        if tier == 1 or (deferred and self.profile not in ('fault', 'deferred')):
             cands = [s for s in cands if s not in self.emitting_scripts]
         return r.choice(cands)
 
@@ -133,7 +134,10 @@ class Gen:
         lab = self.new_label()
         alive_evs = [e for e, a in self.evs.items() if a]
         dead_evs = [e for e, a in self.evs.items() if not a]
-        if c < 0.40:
+        if self.profile == 'deferred' and alive_evs and r.random() < 0.6:
+            sid = self.pick_script(tier, True)
+            self.emit_line(f"connd {s} {h} {lab} {sid} {r.choice(alive_evs)}")
+        elif c < 0.40:
             b = r.choice([0, 0, 0, 1, 2])
             rr = r.randrange(n + 1) if r.random() < 0.5 else n
             a = b + rr
@@ -161,6 +165,14 @@ class Gen:
             self.emit_line(f"conn {s} {h} {lab} {n} {sid} 0")
         if h not in self.conn_handles:
             self.conn_handles.append(h)
+        self.handle_sig[h] = s
+
+    def sig_for(self, h):
+        # mostly the signal the handle was issued by, sometimes any other one
+        s = self.handle_sig.get(h)
+        if s is not None and s in self.sigs and self.r.random() < 0.8:
+            return s
+        return self.pick_sig()
 
     def op_emit(self):
         s = self.pick_sig()
@@ -178,7 +190,7 @@ class Gen:
         if c < 0.16:
             self.emit_line(f"disch {h}")
         elif c < 0.22:
-            s = self.pick_sig()
+            s = self.sig_for(h)
             if s is not None:
                 self.emit_line(f"discs_safe {s} {h}" if not fault else f"discs {s} {h}")
         elif c < 0.25:
@@ -188,7 +200,7 @@ class Gen:
         elif c < 0.35:
             self.emit_line((f"blockh {h} {r.randrange(2)}") if fault else f"tryblockh {h} {r.randrange(2)}")
         elif c < 0.40:
-            s = self.pick_sig()
+            s = self.sig_for(h)
             if s is not None and fault:
                 self.emit_line(f"blocks {s} {h} {r.randrange(2)}")
             else:
@@ -196,7 +208,7 @@ class Gen:
         elif c < 0.45:
             self.emit_line(f"isblockedh {h}" if fault else f"tryisblockedh {h}")
         elif c < 0.48:
-            s = self.pick_sig()
+            s = self.sig_for(h)
             if s is not None and fault:
                 self.emit_line(f"isblockeds {s} {h}")
             else:
@@ -204,7 +216,7 @@ class Gen:
         elif c < 0.58:
             self.emit_line(f"active {h}")
         elif c < 0.63:
-            s = self.pick_sig()
+            s = self.sig_for(h)
             if s is not None:
                 self.emit_line(f"belongs {h} {s}")
         elif c < 0.68:
@@ -212,6 +224,8 @@ class Gen:
         elif c < 0.76:
             d = r.randrange(NH)
             self.emit_line(f"hcopy {h} {d}")
+            if h in self.handle_sig:
+                self.handle_sig[d] = self.handle_sig[h]
             if d not in self.conn_handles:
                 self.conn_handles.append(d)
         elif c < 0.78:
@@ -251,7 +265,7 @@ class Gen:
                 self.next_blocker += 1
                 self.emit_line(f"blnew {b} {h}" if fault else f"tryblnew {b} {h}")
                 self.blockers.append(b)
-        elif c < 0.94:
+        elif c < (0.94 if self.profile != 'deferred' else 0.99):
             # evaluators
             alive = [e for e, a in self.evs.items() if a]
             if alive and r.random() < 0.7:
@@ -306,7 +320,7 @@ class Gen:
             self.sigs[4 + i] = (kinds1[i], 1)
         for h in range(NH + 8):
             self.emit_line(f"hnew {h}")
-        for e in range(r.choice([1, 2, 3])):
+        for e in range(r.choice([1, 2, 3]) if self.profile != 'deferred' else 2):
             self.evs[e] = True
             self.next_ev = e + 1
             self.emit_line(f"evnew {e}")
@@ -321,7 +335,8 @@ class Gen:
                 self.evs[e] = True
                 self.emit_line(f"evnew {e}")
             self.next_ev = 5
-        wc, we, wm = {'clean': (0.30, 0.25, 0.45), 'fault': (0.28, 0.27, 0.45), 'churn': (0.42, 0.13, 0.45)}[self.profile]
+        wc, we, wm = {'clean': (0.30, 0.25, 0.45), 'fault': (0.28, 0.27, 0.45), 'churn': (0.42, 0.13, 0.45),
+                      'deferred': (0.25, 0.35, 0.40)}[self.profile]
         n = 0
         while n < self.length:
             c = r.random()
